@@ -353,6 +353,8 @@ def build(tier):
     targets += clone_targets()
     import enums
     targets += enums.targets()
+    import clones
+    targets += clones.targets()
     return {
         'targets': targets, 'vcs': [],
         'decided': [
